@@ -16,9 +16,10 @@ import time
 
 ROOT = os.path.dirname(os.path.dirname(os.path.abspath(__file__)))
 REPO = os.environ.get("VERIF_REPO", "/repo")
-WORK = os.path.join(ROOT, ".work")
-EVID = os.path.join(ROOT, "evidence")
-REPLAYS = os.path.join(ROOT, "replays")
+ALT = REPO != "/repo"          # development aid: run the checks against another checkout (seeded-mutation trials)
+WORK = os.path.join(ROOT, ".work") if not ALT else os.path.join(ROOT, ".work", "alt-" + os.path.basename(REPO.rstrip("/")))
+EVID = os.path.join(ROOT, "evidence") if not ALT else os.path.join(WORK, "evidence")
+REPLAYS = os.path.join(ROOT, "replays") if not ALT else os.path.join(WORK, "replays")
 KNOWN = os.path.join(ROOT, "known_findings.json")
 
 OFFLINE_ENV = {
